@@ -83,6 +83,17 @@ Theorem C10_full : forall cb0 inb nc scr ups sched,
 Proof. exact full. Qed.
 Print Assumptions C10_full.
 
+(* nothing is left behind: at closed quiescence pendingData and recvBuf are empty (a goroutine spawned after
+   close()'s Wait finds nothing to move into the recycled recvBuf) and a read returns end-of-stream at once *)
+Theorem C10_no_residue : forall cb0 inb nc scr ups sched,
+  let s := run sched (init cb0 inb nc scr ups) in
+  st s = c_streamClosed ->
+  (forall i g, nth_error (gors s) i = Some g -> g = GExit) ->
+  (forall i c, nth_error (clos s) i = Some c -> c = KRet \/ c = KStart) ->
+  pending s = [] /\ recv s = [] /\ read_res s = REndOfStream.
+Proof. exact no_residue. Qed.
+Print Assumptions C10_no_residue.
+
 (* both ends: a Close() on A reaches B — once B's event loop has drained its inbox B's stream has left
    `opened` (its Flush fails, its reads return the flushed data and then end-of-stream by C10_peer) *)
 Theorem C10_propagates : forall cba cbb na nb sa sb ua ub sched,
